@@ -1,8 +1,9 @@
-SPECIFICATION Spec
+SPECIFICATION FairSpec
 CONSTANTS
   MaxTables = 5
   MaxCycles = 8
   K = 1
   ReleaseBeforeJoin = FALSE
 INVARIANTS HandlesBounded ClosedReleasesAll NoGrowthWithCycles CloseCanProceed
+PROPERTIES CloseTerminates
 CHECK_DEADLOCK FALSE
